@@ -8,4 +8,4 @@ Separate Extraction
   Rbac.get_roles_for_user Rbac.get_users_for_role
   Rbac.implicit_permissions Rbac.implicit_permissions_dom Rbac.get_permissions_for_user
   Rbac.implicit_users_for_permission Rbac.enforce_rbac Rbac.depth_ok Rbac.vacuous_grant
-  Roles.has_link.
+  Rbac.g_link Roles.has_link.
